@@ -122,6 +122,22 @@ def full_run(files, lang, settings=None, extra_args=(), subcmd="run", want=()):
         for p in ld.get_call_paths_p3() or []:
             paths.append([(mname(cs.caller_id), where(cs.call_stmt_id), mname(cs.callee_id)) for cs in p])
         out["call_paths"] = paths
+    if "call_edges" in want:
+        def mkey(mid):
+            try:
+                name = ld.convert_method_id_to_method_name(mid)
+                if name == "%unit_init":
+                    uid = ld.convert_method_id_to_unit_id(mid)
+                    return (uid_to_file.get(uid, str(uid)), 0)
+                f, line = where(mid)
+                return (f, line)
+            except Exception:
+                return ("?", -1)
+        edges = set()
+        for p in ld.get_call_paths_p3() or []:
+            for cs in p:
+                edges.add((mkey(cs.caller_id), where(cs.call_stmt_id)[1], mkey(cs.callee_id)))
+        out["call_edges"] = sorted(edges)
     if "lian" in want:
         out["_lian"] = r.lian
     return out
